@@ -239,7 +239,8 @@ theorem RInv.manualSet {s : State} (h : RInv s) (v : Val) : RInv (manualSet s v)
 /-- the state in which the result of the fetch is consumed (task ids dropped, `pc` back at the loop) -/
 def doneState (s : State) : State :=
   { s with
-    pending := s.pending - s.idsHeld, idsHeld := 0, curStatus := .done, pc := .waiting, dataReg := false }
+    pending := s.pending - s.idsHeld, idsHeld := 0, curStatus := .done, pc := .waiting, dataReg := false,
+    lockReg := false }
 
 theorem applyResult_eq (s : State) : Async.applyResult s =
     if s.version = s.fetchVersion then
@@ -323,7 +324,11 @@ theorem RInv.dIter {s : State} (h : RInv s) (hm : Mid s) : RInv (dIter s).1 := b
       have hf := h.toFetch hm
       by_cases hr : (fetchState s).tickFired = true ∧ (fetchState s).curStatus = .ready
       · rw [if_pos hr]
-        exact hf.applyResult (fetchState_pc s) (fetchState_firstRun s) (fetchState_version s)
+        by_cases hg : (fetchState s).guards = 0
+        · rw [if_pos hg]
+          exact hf.applyResult (fetchState_pc s) (fetchState_firstRun s) (fetchState_version s)
+        · rw [if_neg hg]
+          exact hf.of_same ⟨rfl, rfl, rfl, rfl, rfl, rfl, rfl, rfl, rfl, rfl, rfl⟩
       · rw [if_neg hr]
         exact hf.of_same ⟨rfl, rfl, rfl, rfl, rfl, rfl, rfl, rfl, rfl, rfl, rfl⟩
     · rw [if_neg hn]
@@ -368,10 +373,12 @@ theorem RInv.pollD {s : State} (h : RInv s) (hi : Inv s) : RInv (pollD s) := by
     exact RInv.dLoop 3 (h.of_same ⟨rfl, rfl, rfl, rfl, rfl, rfl, rfl, rfl, rfl, rfl, rfl⟩) (hi.midWaiting hpc)
   · rename_i hpc
     split
-    · have h0 : RInv { s with dWoken := false } := h.of_same ⟨rfl, rfl, rfl, rfl, rfl, rfl, rfl, rfl, rfl, rfl, rfl⟩
-      have hf : s.firstRun = false := (hi.dr.r4 (by simp [hpc])).1
-      have hv : s.version = s.fetchVersion := ((hi.dr.r6 hpc).2.1).symm
-      exact RInv.dLoop 3 (h0.applyResult hpc hf hv) (hi.midFetched hpc)
+    · split
+      · have h0 : RInv { s with dWoken := false } := h.of_same ⟨rfl, rfl, rfl, rfl, rfl, rfl, rfl, rfl, rfl, rfl, rfl⟩
+        have hf : s.firstRun = false := (hi.dr.r4 (by simp [hpc])).1
+        have hv : s.version = s.fetchVersion := ((hi.dr.r6 hpc).2.1).symm
+        exact RInv.dLoop 3 (h0.applyResult hpc hf hv) (hi.midFetched hpc)
+      · exact h.of_same ⟨rfl, rfl, rfl, rfl, rfl, rfl, rfl, rfl, rfl, rfl, rfl⟩
     · exact h.of_same ⟨rfl, rfl, rfl, rfl, rfl, rfl, rfl, rfl, rfl, rfl, rfl⟩
 
 /-! ## the effect's task, every event -/
@@ -425,12 +432,21 @@ theorem RInv.step {s : State} (h : RInv s) (hi : Inv s) (e : Event) : RInv (step
       · exact h.pollD hi
       · exact h.of_same (SameRun.trans (b := { s with eWoken := false })
           ⟨rfl, rfl, rfl, rfl, rfl, rfl, rfl, rfl, rfl, rfl, rfl⟩ (eLoop_run 4 _))
-      · exact h.of_same ⟨rfl, rfl, rfl, rfl, rfl, rfl, rfl, rfl, rfl, rfl, rfl⟩
+      · show RInv (pollA s _)
+        unfold pollA wakeWriter
+        dsimp only
+        split <;> exact h.of_same ⟨rfl, rfl, rfl, rfl, rfl, rfl, rfl, rfl, rfl, rfl, rfl⟩
     · exact h
   | get => exact h
   | bread =>
     simp only [Async.step, bread]
     (repeat' split) <;> exact h.of_same ⟨rfl, rfl, rfl, rfl, rfl, rfl, rfl, rfl, rfl, rfl, rfl⟩
+  | attachR => exact h.of_same ⟨rfl, rfl, rfl, rfl, rfl, rfl, rfl, rfl, rfl, rfl, rfl⟩
+  | attachH => exact h.of_same ⟨rfl, rfl, rfl, rfl, rfl, rfl, rfl, rfl, rfl, rfl, rfl⟩
+  | hold => exact h.of_same ⟨rfl, rfl, rfl, rfl, rfl, rfl, rfl, rfl, rfl, rfl, rfl⟩
+  | release =>
+    simp only [Async.step, release, wakeWriter]
+    split <;> exact h.of_same ⟨rfl, rfl, rfl, rfl, rfl, rfl, rfl, rfl, rfl, rfl, rfl⟩
   | attachS => exact h.of_same ⟨rfl, rfl, rfl, rfl, rfl, rfl, rfl, rfl, rfl, rfl, rfl⟩
   | bdrop => exact h.of_same ⟨rfl, rfl, rfl, rfl, rfl, rfl, rfl, rfl, rfl, rfl, rfl⟩
 
